@@ -98,7 +98,7 @@ def s_item(rng, it):
         m = it['m']
         ops = it['ops']
         head = m
-        modled = k == 'inst' and m in BASE_OFFSET and not m.startswith('c.') and len(ops) == 3 and ('lo' in ops[2] or 'hi' in ops[2])
+        modled = k == 'inst' and m in BASE_OFFSET and len(ops) == 3 and ('lo' in ops[2] or 'hi' in ops[2])
         if k == 'inst' and m in BASE_OFFSET and len(ops) == 3 and rng.random() < 0.5 and (modled or not ('hi' in ops[2] or 'lo' in ops[2] or 'pos' in ops[2] or 'off' in ops[2] or 'diff' in ops[2] or 'lab' in ops[2] or 'sum' in ops[2])):
             # imm(reg): for stores the documented alternative is `sw rs2, imm(rs1)`.  The offset is a literal / constant, or the
             # idiom `%lo(symbol)(reg)` (a modifier with its own parentheses in front of the base register)
@@ -169,6 +169,10 @@ def extra_items(rng):
             out.append({'k': 'inst', 'm': m, 'ops': [R(), R(), {'i': v * 8}]})
     for _ in range(rng.randint(0, 2)):
         out.append({'k': 'inst', 'm': rng.choice(['c.lw', 'c.sw']), 'ops': [{'r': rng.randrange(8, 16)}, {'r': rng.randrange(8, 16)}, {'i': rng.choice([0, 4, 64, 124])}]})
+    if rng.random() < 0.5:
+        # compressed load / store whose offset is the low part of an address: `c.lw x8, x9, %lo(65540)` or `c.lw x8, %lo(65540)(x9)`
+        v = rng.choice([0x10004, 0x20000040, 0x1007c, 0x10000])
+        out.append({'k': 'inst', 'm': rng.choice(['c.lw', 'c.sw']), 'ops': [{'r': rng.randrange(8, 16)}, {'r': rng.randrange(8, 16)}, {'lo': {'i': v}}]})
     return out
 
 
